@@ -201,7 +201,7 @@ def _explore_shard(shard, seed, pid, tier, n_cases):
     rep = Reporter(pid, tier, chk.rule)
     runner = engine.CaseRunner(chk, rep)
     strat = engine.case_strategy(tier, chk.doc_kw, chk.weights, modes=chk.modes,
-                                 resets=chk.resets, gens=chk.gens, burn=pid in ("C06", "C13"), custom=True)
+                                 resets=chk.resets, gens=chk.gens, burn=pid in ("C06", "C13"), custom=True, queries=True)
     engine.drive(runner, strat, n_cases, seed)
     return rep
 
